@@ -90,7 +90,10 @@ def quadratic_spline(
 
     unnorm_heights_exp = F.softplus(unnormalized_heights) + 1e-3
 
-    if unnorm_heights_exp.shape[-1] == num_bins - 1:
+    if unnorm_heights_exp.shape[-1] == 0:
+        # A single bin with both boundary heights tied to 1: the uniform density.
+        unnorm_heights_exp = torch.ones_like(widths).expand(*widths.shape[:-1], 2)
+    elif unnorm_heights_exp.shape[-1] == num_bins - 1:
         # Set boundary heights s.t. after normalization they are exactly 1.
         first_widths = 0.5 * widths[..., 0]
         last_widths = 0.5 * widths[..., -1]
